@@ -80,9 +80,11 @@ REGISTRY = {
                 oracle=[OD.oracle_c04_latin, OD.oracle_c04]),
     "C06": dict(_design_prop(OD.oracle_c06, quick=50), correspondence=[i9_randomgen.corr_randomgen]),
     "C07": dict(_design_prop(OD.oracle_c07, quick=45), correspondence=[i8_pipeline.corr_pipeline, i9_randomgen.corr_randomgen]),
-    "C08": dict(_design_prop(OD.oracle_c08, quick=50), correspondence=[i8_pipeline.corr_pipeline]),
+    "C08": dict(_design_prop(OD.oracle_c08, quick=50), correspondence=[i8_pipeline.corr_pipeline],
+                oracle=[OD.oracle_c08_latin, OD.oracle_c08]),
     "C09": _design_prop(OD.oracle_c09),
-    "C16": dict(_design_prop(OD.oracle_c16, quick=50), correspondence=[i7_layout.corr_decode]),
+    "C16": dict(_design_prop(OD.oracle_c16, quick=50), correspondence=[i7_layout.corr_decode],
+                oracle=[lambda ctx, b: OD2.reuse_probe(ctx, "C16"), OD.oracle_c16]),
     "C17": dict(_design_prop(OD.oracle_c17, quick=50), correspondence=[i7_layout.corr_conforms]),
     "C27": {
         "correspondence": [i4_text.corr_text, i4_text.corr_sample_lines],
